@@ -48,6 +48,9 @@ pub struct ConcDesc {
     /// exactly k instructions of code under test
     #[serde(default)]
     pub fine: Option<(usize, usize, u64)>,
+    /// anchored instruction-level window (sched::set_anchor): (thread, hook site, n, k)
+    #[serde(default)]
+    pub anchor: Option<(usize, String, u64, u64)>,
     #[serde(default)]
     pub schedule: Option<Vec<u8>>,
 }
@@ -442,6 +445,7 @@ pub fn generate_stringbuf(run_seed: u64, thorough: bool) -> ConcDesc {
         compilers: vec![],
         sb_ops,
         fine: None,
+        anchor: None,
         schedule: None,
     }
 }
@@ -472,6 +476,7 @@ pub fn generate_call_race(run_seed: u64) -> ConcDesc {
         compilers: vec![],
         sb_ops: vec![],
         fine: Some((0, 0, 1 + r.below(2500))),
+        anchor: None,
         schedule: None,
     }
 }
@@ -533,6 +538,15 @@ pub fn generate(run_seed: u64, thorough: bool, cold_race: bool) -> ConcDesc {
         compilers,
         sb_ops: vec![],
         fine: None,
+        // one cold race in three: one thread is single-stepped from one of its interning points on
+        // and preempted up to 300 instructions later - inside the interner, where a lookup and an
+        // insert may be two steps
+        anchor: if cold_race && rng::derive(run_seed, &[rng::label("anchor")]) % 3 == 0 {
+            let mut ar = Rng::new(rng::derive(run_seed, &[rng::label("anchor-k")]));
+            Some((ar.below(2) as usize, "intern".to_string(), ar.below(900), 1 + ar.below(300)))
+        } else {
+            None
+        },
         schedule: None,
     }
 }
@@ -928,10 +942,12 @@ pub fn execute(d: &ConcDesc, keep_trace: bool) -> RunResult {
                 Box::new(move || cold_thread(t, variant, x)) as sched::Body
             })
             .collect();
+        sched::set_anchor(d.anchor.clone());
         out = sched::run_sim(
             SimCfg { seed: d.sched_seed, strategy: Strategy::parse(&d.strategy).unwrap_or(Strategy::Uniform), replay: d.schedule.clone(), step_cap: 3_000_000, keep_trace },
             bodies,
         );
+        sched::set_anchor(None);
     } else {
         // ---- setup on the main thread: runtime, corpus, shared handles, solo runs
         #[allow(clippy::type_complexity)]
@@ -1171,6 +1187,8 @@ pub fn execute(d: &ConcDesc, keep_trace: bool) -> RunResult {
     c.insert(format!("strategy_{}", d.strategy.split('/').next().unwrap_or("")), 1);
     c.insert("calls_under_simulation".into(), n_calls);
     c.insert("fine_window_configured".into(), d.fine.is_some() as u64);
+    c.insert("anchored_window_configured".into(), d.anchor.is_some() as u64);
+    c.insert("anchored_window_armed".into(), sched::ANCHOR_ARMED.load(SeqCst));
     c.insert("fine_window_preemptions_fired".into(), sched::FINE_FIRED.load(SeqCst));
     c.insert("solo_reference_calls".into(), n_solo);
     c.insert("runs_with_fresh_package_for_the_threads".into(), fresh_pkg as u64);
